@@ -434,6 +434,10 @@ def gen_sample(rng, stream=None):
         elif sub == "z>=t":
             V["t"] = rng.choice([0.0, 1.0, 2.5, -3.0, 10.0 ** rng.uniform(-2, 2)])
             V["z"] = rng.choice([V["t"], -V["t"], V["t"] * 1.5 + 0.25, -(abs(V["t"]) * 3 + 1)])
+            if rng.random() < 0.35:
+                # negative time with |z| < |t| (inside the backward light cone): still |z| >= t, t^2 - z^2 > 0
+                V["t"] = -abs(V["t"]) - rng.choice([0.5, 3.0, 40.0])
+                V["z"] = V["t"] * rng.choice([0.0, 0.5, -0.25, 0.9, -0.6])
         else:
             V["E"] = -V["E"]
     elif stream == "regulated":   # outside the property's domain: the regulation branches of the model
